@@ -1,4 +1,5 @@
 import Memterm.Proofs.DrawFrame
+import Memterm.Proofs.SparseStep
 import Memterm.Props.C06
 import Memterm.Spec.C04
 
@@ -184,6 +185,13 @@ example :
     let s := draw env (init 3 2) [97, 98, 0x4e2d, 99]
     display env s = [[97, 98, 0x4e2d], [99, 32, 32]] ∧ (s.cursor.y, s.cursor.x) = (1, 1) := by
   decide
+
+/-! #### the sparse layer -/
+
+/-- `draw` on the HashMap buffer (`entry().or_insert` for the row, for the cell a combining mark
+    joins, the wrap / insert stages on the sparse row maps) observes as the dense `draw` -/
+theorem sparse_draw (env : Env) (ss : Sparse.SScreen) (t : List Nat) (h : Inv (Sparse.abs ss)) :
+    Sparse.abs (Sparse.draw env ss t) = draw env (Sparse.abs ss) t := Sparse.abs_draw env ss t h
 
 end C04
 end Memterm
